@@ -21,7 +21,7 @@ import subprocess
 
 from . import common
 
-MODULES = ["CoapVerif.Props.C17", "CoapVerif.Props.C17Vars", "CoapVerif.Props.C17Access", "CoapVerif.Props.C17Nested"]
+MODULES = ["CoapVerif.Props.C17", "CoapVerif.Props.C17Vars", "CoapVerif.Props.C17Access", "CoapVerif.Props.C17Nested", "CoapVerif.Props.C17Wire"]
 GENERATED = ["RouterLockShape.lean", "OptionDefs.lean"]
 
 
@@ -377,8 +377,87 @@ def enc_options(opts):
     return out
 
 
-def enc_request(rng, transport, code, segs, token=None):
-    """datagram (udp, udpsrv) or frame (tcp/tcpsrv) of a message with the given code and one Uri-Path option per segment"""
+# RFC 7252 table 4 (+ RFC 7641 Observe, RFC 7959 Block/Size2, RFC 7967 No-Response): number -> (min, max) value length.  Used only to
+# pick value lengths INSIDE and just OUTSIDE the range; Block1/Block2 are left out (a legal one engages the blockwise layer).
+RFC_OPTION_LENGTHS = {1: (0, 8), 3: (1, 255), 4: (1, 8), 5: (0, 0), 6: (0, 3), 7: (0, 2), 8: (0, 255), 12: (0, 2), 14: (0, 4),
+                      15: (0, 255), 17: (0, 2), 20: (0, 255), 28: (0, 4), 35: (1, 1034), 39: (1, 255), 60: (0, 4), 258: (0, 1)}
+UNASSIGNED_OPTIONS = [2, 9, 10, 13, 16, 21, 300, 2048, 65000, 65535]
+URI_PATH = 11
+
+
+def other_option(rng, numbers, legal):
+    """(number, value) of an option that is not Uri-Path: value length inside its range (legal) or just outside (a recipient
+    ignores / skips such an option, RFC 7252 5.4.3); unassigned numbers have no range"""
+    num = rng.choice(numbers)
+    if num not in RFC_OPTION_LENGTHS:
+        n = rng.choice([0, 1, 3, 13, 20])
+    else:
+        mn, mx = RFC_OPTION_LENGTHS[num]
+        if legal:
+            n = rng.choice([mn, mx if mx <= 16 else min(mx, 14), min(mx, mn + 1)])
+        else:
+            out = ([mn - 1] if mn > 0 else []) + [mx + 1] + ([mx + 2] if mx < 16 else [])
+            n = rng.choice(out)
+    return num, bytes(rng.choice(b"0123456789abcdefxyz") for _ in range(n))
+
+
+def gen_option_list(rng, segs, before=None, behind=None):
+    """the whole option list of a request as (delta, value) pairs in wire order: one Uri-Path option per segment plus other options
+    in front of and behind them - in range, out of range (skipped by a recipient), unassigned, number 0.
+    before / behind: explicit [(number, value)] lists instead of random ones"""
+    low = [n for n in list(RFC_OPTION_LENGTHS) + UNASSIGNED_OPTIONS if n < URI_PATH]
+    high = [n for n in list(RFC_OPTION_LENGTHS) + UNASSIGNED_OPTIONS if n > URI_PATH]
+    if before is None:
+        before = []
+        k = rng.random()
+        for _ in range(0 if k < 0.15 else 1 if k < 0.6 else 2 if k < 0.9 else 3):
+            before.append(other_option(rng, low, legal=rng.random() < 0.35))
+        if rng.random() < 0.05:
+            before.append((0, b""))                         # delta 0 in front: option number 0
+    if behind is None:
+        behind = []
+        k = rng.random()
+        for _ in range(0 if k < 0.5 else 1 if k < 0.85 else 2):
+            behind.append(other_option(rng, high, legal=rng.random() < 0.5))
+    numbered = sorted(before, key=lambda o: o[0]) + [(URI_PATH, x.encode("utf-8")) for x in segs] + sorted(behind, key=lambda o: o[0])
+    out, prev = [], 0
+    for num, val in numbered:
+        out.append((num - prev, val))
+        prev = num
+    return out
+
+
+def enc_wire_opts(ws):
+    """(delta, value) pairs -> bytes (RFC 7252 3.1: nibbles 13 / 14 announce one / two extension bytes)"""
+    out = b""
+    for d, val in ws:
+        dn, de = _ext(d)
+        ln, le = _ext(len(val))
+        out += bytes([dn * 16 + ln]) + de + le + val
+    return out
+
+
+def opts_field(ws):
+    return "o:" + ",".join("%d.%s" % (d, v.hex() if v else "-") for d, v in ws)
+
+
+def parse_opts_field(field):
+    """-> [(number, value bytes)] by the RFC's delta sums"""
+    out, num = [], 0
+    for item in [x for x in field[2:].split(",") if x]:
+        d, v = item.split(".")
+        num += int(d)
+        out.append((num, b"" if v == "-" else bytes.fromhex(v)))
+    return out
+
+
+def skipped_by_rfc(num, val):
+    return num in RFC_OPTION_LENGTHS and not (RFC_OPTION_LENGTHS[num][0] <= len(val) <= RFC_OPTION_LENGTHS[num][1])
+
+
+def enc_request(rng, transport, code, segs, token=None, optlist=None):
+    """datagram (udp, udpsrv) or frame (tcp/tcpsrv) of a message with the given code and one Uri-Path option per segment;
+    optlist: the complete option list as (delta, value) pairs instead"""
     if token is None:
         token = bytes(rng.randrange(256) for _ in range(rng.choice([0, 1, 2, 4, 8])))
     opts = [(11, s.encode("utf-8")) for s in segs]
@@ -390,7 +469,7 @@ def enc_request(rng, transport, code, segs, token=None):
         opts.append((17, b""))
     if rng.random() < 0.1:
         opts.append((12, b""))
-    body = enc_options(opts)
+    body = enc_options(opts) if optlist is None else enc_wire_opts(optlist)
     if rng.random() < 0.25:
         body += b"\xff" + bytes(rng.randrange(256) for _ in range(rng.randrange(1, 20)))
     if transport in ("udp", "udpsrv"):
@@ -411,8 +490,9 @@ def segs_field(segs):
     return "none" if not segs else ",".join(hx(s) for s in segs)
 
 
-def wire_line(rng, segs, code=None, transport=None, failed=False):
-    """failed=True: the request carries the token of an exchange that FAILED just before on the same connection / server
+def wire_line(rng, segs, code=None, transport=None, failed=False, optlist=None):
+    """optlist: the request's complete option list ((delta, value) pairs; field 3 becomes `o:<delta>.<value>,…`);
+    failed=True: the request carries the token of an exchange that FAILED just before on the same connection / server
     (observe registration that timed out; discovery whose datagram could not be written)"""
     if transport is None:
         transport = rng.choice(["udp", "udp", "udp", "tcp", "tcp", "tcpsrv", "udpsrv"])
@@ -425,6 +505,8 @@ def wire_line(rng, segs, code=None, transport=None, failed=False):
         k = rng.random()
         code = rng.choice([1, 2, 3, 4]) if k < 0.4 else rng.choice([5, 6, 7]) if k < 0.8 else \
             rng.choice([8, 13, 20, 31]) if k < 0.9 else rng.choice([65, 69, 132, 160])
+    if optlist is not None:
+        return "wire %s %d %s %s" % (field, code, opts_field(optlist), enc_request(rng, transport, code, segs, token, optlist).hex())
     return "wire %s %d %s %s" % (field, code, segs_field(segs), enc_request(rng, transport, code, segs, token).hex())
 
 
@@ -441,7 +523,8 @@ def gen_wire_case(rng):
                 segs = segs[:i] + [""] + segs[i:]
             if any(len(x.encode("utf-8")) > 255 for x in segs):
                 continue
-            out.append(wire_line(rng, segs, failed=rng.random() < 0.2))
+            optlist = gen_option_list(rng, segs) if rng.random() < 0.4 else None     # other options around the path, in and out of range
+            out.append(wire_line(rng, segs, failed=rng.random() < 0.2, optlist=optlist))
         elif f[0] not in ("match", "getroutes", "getroute", "servefail"):
             out.append(l)
     return out, meta
@@ -463,6 +546,22 @@ def gen_wire_systematic(rng):
                     lines.append(wire_line(rng, segs, code, tr, failed=True))
                     lines.append(wire_line(rng, segs, code, tr))
             cases.append((lines, {"meta_literal": False, "invalid": 0, "templates": ["/b/{name}", "/hello"]}))
+    # an option the recipient skips (value length out of range) in front of, or behind, the Uri-Path options: the path is the same
+    ts = ["/", "/a", "/a/b", "/{x}/{y}/{z}", "/{x}", "/a/"]
+    skipped = [(n, b"v" * k) for n, (mn, mx) in sorted(RFC_OPTION_LENGTHS.items()) if mx < 300
+               for k in ([mn - 1] if mn > 0 else []) + [mx + 1]]
+    for tr in ("udp", "tcp", "tcpsrv", "udpsrv"):
+        for dflt in (None, "default d1"):
+            lines = ["reset"] + ["route %s h%d" % (hx(t), i) for i, t in enumerate(ts)] + ([dflt] if dflt else [])
+            for segs in (["a", "b"], ["a"], ["a", ""], ["zz", "zz"], []):
+                for num, val in skipped:
+                    before = [(num, val)] if num < URI_PATH else []
+                    behind = [(num, val)] if num > URI_PATH else []
+                    lines.append(wire_line(rng, segs, rng.choice([1, 2, 5]), tr, optlist=gen_option_list(rng, segs, before, behind)))
+                for pair in ([(3, b""), (6, b"1234")], [(1, b"123456789"), (9, b"x")], [(0, b""), (5, b"x")], [(4, b""), (7, b"abc"), (8, b"loc")],
+                             [(3, b"host"), (7, b"abc")], [(2, b"u"), (4, b"123456789")]):
+                    lines.append(wire_line(rng, segs, 1, tr, optlist=gen_option_list(rng, segs, pair, [(12, b"xyz"), (2048, b"far")])))
+            cases.append((lines, {"meta_literal": False, "invalid": 0, "templates": ts}))
     for ts, ps in fams:
         for tr in ("udp", "tcp", "tcpsrv", "udpsrv"):
             lines = ["reset"] + ["route %s h%d" % (hx(t), i) for i, t in enumerate(ts)]
@@ -687,6 +786,12 @@ DISPATCH_OPS = ("serve", "served", "match", "wire", "servefail", "msgserve")
 
 def show_line(l):
     f = l.split()
+    if f[0] == "wire" and f[3].startswith("o:"):
+        opts = parse_opts_field(f[3])
+        segs = [v.decode("utf-8", "replace") for n, v in opts if n == URI_PATH]
+        return "wire %s code=%s path=%r options=[%s] bytes=%s" % (
+            f[1], f[2], "(no Uri-Path)" if not segs else "/" + "/".join(segs),
+            " ".join("%d:%s%s" % (n, v.hex() if len(v) <= 8 else "<%d bytes>" % len(v), "(out of range)" if skipped_by_rfc(n, v) else "") for n, v in opts), f[4])
     if f[0] == "wire":
         return "wire %s code=%s path=%r bytes=%s" % (f[1], f[2], "(no Uri-Path)" if f[3] == "none" else "/" + "/".join(unhx(x) for x in f[3].split(",")), f[4])
     if len(f) > 1 and f[0] in ("route", "routef", "unroute", "serve", "served", "match") and f[1] != "none":
@@ -721,7 +826,8 @@ def explore(ctx, art):
     ctx.cov["distinct_ambiguous_dispatches"] = len(getattr(ctx, "ambiguous", ()))
     ctx.cov["rule"] = ("one evaluation = one dispatch (serve: through mux.ToHandler, the servers' adapter, requests of a case one after another; "
                        "served: Router.ServeCOAP directly; match: Router.Match directly; wire: request BYTES from an independent encoder "
-                       "- any method code, one Uri-Path option per segment incl. empty ones, optionally under the token of an observe registration / "
+                       "- any method code, one Uri-Path option per segment incl. empty ones, optionally with other options in front of and behind them whose value "
+                       "length is inside or OUTSIDE the range of their definition (skipped by the decoder; the path is made of the options whose deltas add up to 11), optionally under the token of an observe registration / "
                        "discovery that failed just before - into a real udp/tcp connection, tcp server or udp server on a loopback socket "
                        "whose handler was installed by options.WithMux) after a "
                        "sequence of route/routef/unroute/default/mw operations on a fresh real mux.Router. Non-trivial = at least two "
@@ -765,7 +871,16 @@ def evaluate(ctx, art, cases, n_random):
                 if "+" in f[1]:
                     ctx.count("wire-after-failed-" + f[1].split("+")[1].split(":")[0])
                 ctx.count("wire-%s-code-%s" % (f[1].split("+")[0], f[2] if int(f[2]) <= 7 else "other"))
-                if f[3] != "none" and "-" in f[3].split(","):
+                if f[3].startswith("o:"):
+                    opts = parse_opts_field(f[3])
+                    ctx.count("wire-with-whole-option-list")
+                    if any(n < URI_PATH and skipped_by_rfc(n, v) for n, v in opts):
+                        ctx.count("wire-out-of-range-option-before-uri-path" if any(n == URI_PATH for n, v in opts) else "wire-out-of-range-option-and-no-uri-path")
+                    if any(n > URI_PATH and skipped_by_rfc(n, v) for n, v in opts):
+                        ctx.count("wire-out-of-range-option-behind-uri-path")
+                    if any(n == URI_PATH and not v for n, v in opts):
+                        ctx.count("wire-empty-uri-path-segment")
+                elif f[3] != "none" and "-" in f[3].split(","):
                     ctx.count("wire-empty-uri-path-segment")
         elif op in ("route", "routef", "unroute"):
             ctx.count("reg-" + " ".join(o.split()[:2]))
